@@ -103,6 +103,8 @@ func vpMk_Item(shape int, tag byte) Item {
 		return ItemCollection{vpMkIRI(tag)}
 	case 8:
 		return ItemCollection{&Object{ID: vpMkIRI(tag), Type: NoteType, Summary: vpMk_NLV(0, tag)}}
+	case 10: // a link that has an id of its own besides its target
+		return &Link{ID: vpMkIRI(tag + 1), Type: MentionType, Href: vpMkIRI(tag)}
 	default:
 		return &Object{Name: vpMk_NLV(0, tag)} // neither id nor type
 	}
@@ -265,7 +267,7 @@ func vpShapes(kind string) int {
 	case "NLV":
 		return 3
 	case "Item":
-		return 10
+		return 11
 	case "Items":
 		return 4
 	case "Time", "Duration", "Float":
